@@ -74,6 +74,12 @@ class Subject(Observable[_T], Observer[_T], abc.SubjectBase[_T]):
 
         with self.lock:
             self.check_disposed()
+            if not self.is_stopped:
+                # Publish the error before Observer.on_error marks the subject
+                # as stopped: a subscriber arriving in between must not find a
+                # stopped subject without its exception (it would be told the
+                # sequence completed).
+                self.exception = error
         super().on_error(error)
 
     def _on_error_core(self, error: Exception) -> None:
